@@ -604,6 +604,18 @@ type intPtr *int
 
 func (e *myErr) Error() string { return e.msg }
 
+// calm tolerates a nil receiver in its String/Error methods (like *time.Location, *big.Int):
+// a typed nil *calm is still ABSENT and must render as "<nil>", whatever fmt would print for it.
+type calm struct{ n int }
+
+func (c *calm) String() string {
+	if c == nil {
+		return "calm(nil-receiver)"
+	}
+	return fmt.Sprintf("calm(%d)", c.n)
+}
+func (c *calm) Error() string { return c.String() }
+
 type picks struct {
 	I     int64  `json:"i"`
 	U     uint64 `json:"u"`
@@ -623,7 +635,7 @@ var anyShapes = []string{
 	"float32", "float64", "complex128", "string", "struct", "array",
 	"slice-nil", "slice-empty", "slice", "map-nil", "map", "func-nil", "func", "chan-nil", "chan",
 	"*int", "*S", "*struct{}", "*string", "*[]int", "*any(nil)", "*any(int)", "**int(inner nil)", "**int", "*map(nil)",
-	"nil *int", "nil *S", "nil **int", "nil *any", "nil", "error", "nil *myErr",
+	"nil *int", "nil *S", "nil **int", "nil *any", "nil", "error", "nil *myErr", "nil *calm", "*calm",
 	"Just(x)", "Just^n(x)", "None", "Just(None)", "Just(Just(None))", "JustGenerics[any](nil)", "JustGenerics[int](x)",
 	"*Maybe", "*hidden", "hidden", "nil named ptr", "named ptr", "unsafe.Pointer(nil)", "unsafe.Pointer", "[]any", "*[2]*int",
 }
@@ -723,6 +735,10 @@ func buildAny(shape string, p picks) (v any, fb any) {
 		return &mm, fb
 	case "nil *int":
 		return (*int)(nil), fb
+	case "nil *calm":
+		return (*calm)(nil), fb
+	case "*calm":
+		return &calm{n: int(p.I)}, fb
 	case "nil *S":
 		return (*S)(nil), fb
 	case "nil **int":
@@ -911,9 +927,28 @@ var insts = []inst{
 	{"JustGenerics[S]", []string{"struct"}, func(c *chk, shape string, p picks, pr params) any {
 		return runTyped[S](c, S{A: int(p.I), B: p.Str}, S{A: int(p.I) + 1, B: "fb"}, pr)
 	}},
-	{"JustGenerics[error]", []string{"nil", "error", "nil *myErr"}, func(c *chk, shape string, p picks, pr params) any {
+	{"JustGenerics[*calm]", []string{"*calm", "nil *calm"}, func(c *chk, shape string, p picks, pr params) any {
+		fb := &calm{n: -7}
+		if shape == "nil *calm" {
+			return runTyped[*calm](c, nil, fb, pr)
+		}
+		return runTyped[*calm](c, &calm{n: int(p.I)}, fb, pr)
+	}},
+	{"JustGenerics[fmt.Stringer]", []string{"nil", "*calm", "nil *calm"}, func(c *chk, shape string, p picks, pr params) any {
+		fb := fmt.Stringer(&calm{n: -7})
+		switch shape {
+		case "nil":
+			return runTyped[fmt.Stringer](c, nil, fb, pr)
+		case "nil *calm":
+			return runTyped[fmt.Stringer](c, (*calm)(nil), fb, pr)
+		}
+		return runTyped[fmt.Stringer](c, &calm{n: int(p.I)}, fb, pr)
+	}},
+	{"JustGenerics[error]", []string{"nil", "error", "nil *myErr", "nil *calm"}, func(c *chk, shape string, p picks, pr params) any {
 		fb := error(&myErr{msg: "fb"})
 		switch shape {
+		case "nil *calm":
+			return runTyped[error](c, (*calm)(nil), fb, pr)
 		case "nil":
 			return runTyped[error](c, nil, fb, pr)
 		case "nil *myErr":
